@@ -96,8 +96,19 @@ def check_pair(a, b, seed):
     tested = 0
     bxs, bys = [p[0] for p in fb], [p[1] for p in fb]
     axs, ays = [p[0] for p in fa], [p[1] for p in fa]
-    for k in range(60):
-        if k < 40:
+    cores = []
+    for spec, f in ((a, fa), (b, fb)):
+        if spec["kind"] == "contour":
+            # the middle of a contour given segment by segment (star polygons: the core and the rings around it, wound two or three times)
+            vs = [s[0] for s in spec["segs"]]
+            c = (sum(v[0] for v in vs) / len(vs), sum(v[1] for v in vs) / len(vs))
+            cores.append((c, 0.65 * min(math.hypot(v[0] - c[0], v[1] - c[1]) for v in vs)))
+    for k in range(60 + 30 * len(cores)):
+        if k >= 60:
+            c, rad = cores[(k - 60) % len(cores)]
+            ang, d = rng.uniform(0, 2 * math.pi), rad * math.sqrt(rng.random())
+            q = (c[0] + d * math.cos(ang), c[1] + d * math.sin(ang))
+        elif k < 40:
             q = (rng.uniform(min(xs) - 10, max(xs) + 10), rng.uniform(min(ys) - 10, max(ys) + 10))
         elif k < 50:
             q = (rng.uniform(min(bxs), max(bxs)), rng.uniform(min(bys), max(bys)))      # inside the argument's box (holes, nested shapes)
